@@ -33,6 +33,24 @@ func heapTerm(in *Interp, path string) string {
 	return v.String()
 }
 
+// heapTermT is heapTerm for a cell of known type: a field that was not
+// written itself but belongs to an object copied as a whole (*dst = *src) reads
+// as the corresponding field of the source.
+func heapTermT(in *Interp, path string, t types.Type) string {
+	if _, ok := in.HeapAt(path); ok {
+		return heapTerm(in, path)
+	}
+	v := in.Load(path, t)
+	switch v.K {
+	case KSlice:
+		if v.Len >= 0 {
+			return fmt.Sprintf("%s[%d:%d]", v.S, v.Off, v.Off+v.Len)
+		}
+		return fmt.Sprintf("%s[%d:]", v.S, v.Off)
+	}
+	return v.String()
+}
+
 // ---------------------------------------------------------------------------
 // R11 frame — message producers copy every field they do not name.
 
@@ -90,7 +108,7 @@ func ruleFrame(p *Prog, r *Report) {
 		for i := 0; i < st.NumFields(); i++ {
 			f := st.Field(i).Name()
 			key := fmt.Sprintf("%s:ast.(*DataMessage).%s:%s", rule, pr.name, f)
-			got := heapTerm(in, obj+"."+f)
+			got := heapTermT(in, obj+"."+f, st.Field(i).Type())
 			if !pr.modifies[f] {
 				want := "p0." + f
 				if _, isSlice := st.Field(i).Type().Underlying().(*types.Slice); isSlice {
@@ -553,62 +571,96 @@ func ruleMessageLayout(p *Prog, r *Report) {
 		return
 	}
 	pos := p.Pos(fn.Pos())
+	// The fields are bound to concrete values and the emitted bytes compared as
+	// numbers: how the bytes are computed (shifts, masks, encoding/binary, a
+	// scratch array) does not matter, only what they are.
+	sys := []int64{0xA1, 0xB2, 0xC3, 0xD4}
+	names := []string{"length byte 0", "length byte 1", "length byte 2", "length byte 3", "session id high", "session id low", "W-bit|stream", "function", "PType", "SType", "system byte 0", "system byte 1", "system byte 2", "system byte 3"}
 	for _, w := range []int64{0, 1} {
 		for _, sid := range []int64{0x1234, 0xABCD} {
 			key := fmt.Sprintf("%s:ast.(*DataMessage).ToBytes:W=%d:session=%#x", rule, w, sid)
-			in := symInterp(p)
-			in.PathBind["p0.waitBit"] = int64Val(w)
-			in.PathBind["p0.sessionID"] = int64Val(sid)
-			in.Bind = func(v ssa.Value, fr *frame) (Val, bool) {
-				if isInvokeOf(v, "Variables") {
-					return Val{K: KSlice, S: "vars", Len: 0}, true
+			var probs, undec []string
+			runs := 0
+			for _, stream := range []int64{0, 1, 127} {
+				for _, function := range []int64{0, 255} {
+					for _, n := range []int{0, 3, 300, 70000} {
+						in := symInterp(p)
+						in.PathBind["p0.waitBit"] = int64Val(w)
+						in.PathBind["p0.sessionID"] = int64Val(sid)
+						in.PathBind["p0.stream"] = int64Val(stream)
+						in.PathBind["p0.function"] = int64Val(function)
+						in.PathBind["len(p0.systemBytes)"] = int64Val(4)
+						for i, b := range sys {
+							in.PathBind[fmt.Sprintf("p0.systemBytes[%d]", i)] = int64Val(b)
+						}
+						nn := n
+						in.Bind = func(v ssa.Value, fr *frame) (Val, bool) {
+							if isInvokeOf(v, "Variables") {
+								return Val{K: KSlice, S: "vars", Len: 0}, true
+							}
+							if isInvokeOf(v, "ToBytes") {
+								return Val{K: KSlice, S: "item", Len: nn}, true
+							}
+							return Val{}, false
+						}
+						out := in.Run(fn, defaultArgs(fn), nil)
+						runs++
+						what := fmt.Sprintf("stream %d, function %d, %d item bytes", stream, function, n)
+						if len(in.Stuck) > 0 {
+							undec = append(undec, what+": evaluation stuck")
+							continue
+						}
+						var full *Val
+						for _, rv := range out.Frame.ReturnVals() {
+							if rv[0].K == KSlice && rv[0].Len != 0 {
+								v := rv[0]
+								full = &v
+							}
+						}
+						if full == nil {
+							undec = append(undec, what+": no non-empty result found for a complete message")
+							continue
+						}
+						L := int64(n + 10)
+						want := []int64{L >> 24 & 255, L >> 16 & 255, L >> 8 & 255, L & 255, sid >> 8, sid & 255, w<<7 | stream, function, 0, 0, sys[0], sys[1], sys[2], sys[3]}
+						for i := range want {
+							v := in.Elem(*full, i, typByte)
+							switch {
+							case v.K == KInt && v.I.IsInt64() && v.I.Int64() == want[i]:
+							case v.K == KInt:
+								probs = append(probs, fmt.Sprintf("%s: byte %d (%s) is %s, expected %d", what, i, names[i], v, want[i]))
+							default:
+								undec = append(undec, fmt.Sprintf("%s: byte %d (%s) could not be determined (%s)", what, i, names[i], v))
+							}
+						}
+						if full.Len >= 0 && full.Len != 14+n {
+							probs = append(probs, fmt.Sprintf("%s: the message has %d bytes, expected %d", what, full.Len, 14+n))
+						}
+						switch {
+						case n == 0:
+						case n <= 64:
+							for i := 0; i < n; i++ {
+								v := in.Elem(*full, 14+i, typByte)
+								if !(v.K == KSym && v.S == fmt.Sprintf("item[%d]", i)) {
+									probs = append(probs, fmt.Sprintf("%s: byte %d is %s, expected byte %d of the item", what, 14+i, v, i))
+								}
+							}
+						default:
+							rest, _ := in.HeapAt(full.S + "[*]")
+							if !(rest.K == KSym && rest.S == "item[*]") {
+								probs = append(probs, what+": the bytes after the header are "+rest.String()+", expected the item's bytes")
+							}
+						}
+					}
 				}
-				return Val{}, false
 			}
-			out := in.Run(fn, defaultArgs(fn), nil)
-			var full *Val
-			for _, rv := range out.Frame.ReturnVals() {
-				if rv[0].K == KSlice && rv[0].Len != 0 {
-					v := rv[0]
-					full = &v
-				}
-			}
-			if full == nil {
-				r.unk(rule, key, pos, "no non-empty result found for a complete message")
-				continue
-			}
-			var got []string
-			for i := 0; i < 14; i++ {
-				v, _ := in.HeapAt(fmt.Sprintf("%s[%d]", full.S, full.Off+i))
-				got = append(got, v.String())
-			}
-			rest, _ := in.HeapAt(full.S + "[*]")
-			item := "p0.dataItem.ToBytes()"
-			L := "uint32((len(" + item + ")+10))"
-			want := []string{
-				"byte((" + L + ">>24))", "byte((" + L + ">>16))", "byte((" + L + ">>8))", "byte(" + L + ")",
-				strconv.FormatInt(sid>>8, 10), strconv.FormatInt(sid&255, 10),
-				"byte(p0.stream)", "byte(p0.function)", "0", "0",
-				"p0.systemBytes[0]", "p0.systemBytes[1]", "p0.systemBytes[2]", "p0.systemBytes[3]",
-			}
-			if w == 1 {
-				want[6] = "byte((p0.stream+128))"
-			}
-			alt6 := strings.Replace(want[6], "+128", "|128", 1)
-			var probs []string
-			names := []string{"length byte 0", "length byte 1", "length byte 2", "length byte 3", "session id high", "session id low", "W-bit|stream", "function", "PType", "SType", "system byte 0", "system byte 1", "system byte 2", "system byte 3"}
-			for i := range want {
-				if got[i] != want[i] && !(i == 6 && got[i] == alt6) {
-					probs = append(probs, fmt.Sprintf("byte %d (%s) is %s, expected %s", i, names[i], got[i], want[i]))
-				}
-			}
-			if !(rest.K == KSym && rest.S == item+"[*]") {
-				probs = append(probs, "the bytes after the header are "+rest.String()+", expected the item's bytes")
-			}
-			if len(probs) > 0 {
-				r.bad(rule, key, pos, strings.Join(probs, "; "))
-			} else {
-				r.ok(rule, key, pos, "4-byte big-endian length of text+10, session id, W|stream, function, 0, 0, system bytes, then the item")
+			switch {
+			case len(probs) > 0:
+				r.bad(rule, key, pos, strings.Join(firstN(probs, 4), "; "))
+			case len(undec) > 0:
+				r.unk(rule, key, pos, strings.Join(firstN(undec, 4), "; "))
+			default:
+				r.ok(rule, key, pos, fmt.Sprintf("for %d combinations of stream, function and item length the result is: 4-byte big-endian length of text+10, session id, W<<7|stream, function, 0, 0, the four system bytes, then the item's bytes in order", runs))
 			}
 		}
 	}
@@ -707,6 +759,10 @@ func ruleEndian(p *Prog, r *Report) {
 			continue
 		}
 		key := fmt.Sprintf("%s:ast.(*%s).ToBytes:loop", rule, tn)
+		if d, ok := bigEndianTerms(p, fn); ok {
+			r.ok(rule, key, p.Pos(fn.Pos()), d)
+			continue
+		}
 		if d, ok := bigEndianStdlib(p, fn); ok {
 			r.ok(rule, key, p.Pos(fn.Pos()), d)
 			continue
@@ -851,6 +907,66 @@ func bigEndianLoop(p *Prog, fn *ssa.Function) (desc string, ok bool, undecided b
 // bigEndianStdlib recognises an emission through encoding/binary: for every
 // element width k the only emission calls reached are
 // binary.BigEndian.AppendUint<8k> / PutUint<8k> (a plain byte append for k = 1).
+// bigEndianTerms decides the emission from what is appended: evaluated with
+// the element as a symbol and the width bound to k, the bytes appended to the
+// result inside the element loop must be byte(x>>8(k-1)), ..., byte(x>>8),
+// byte(x) of one term x over the element - however they were produced (shifts,
+// encoding/binary into a scratch array, a helper).
+func bigEndianTerms(p *Prog, fn *ssa.Function) (string, bool) {
+	var element string
+	for _, k := range []int64{1, 2, 4, 8} {
+		in := symInterp(p)
+		in.PathBind["p0.byteSize"] = int64Val(k)
+		in.PathBind["len(p0.variables)"] = int64Val(0)
+		var terms []string
+		known := true
+		in.OnAppend = func(call *ssa.Call, appended Val, elems []Val, fr *frame) {
+			if fr.fn != fn || !inLoop(call.Block()) {
+				return
+			}
+			if bt, ok := call.Type().Underlying().(*types.Slice); !ok || !types.Identical(bt.Elem(), typByte) {
+				return
+			}
+			if elems == nil {
+				known = false
+				return
+			}
+			for _, e := range elems {
+				terms = append(terms, e.String())
+			}
+		}
+		out := in.Run(fn, defaultArgs(fn), nil)
+		if !known || len(in.Stuck) > 0 || !out.CanReturn || len(terms) != int(k) {
+			return "", false
+		}
+		base := ""
+		for i, t := range terms {
+			want := 8 * (int(k) - 1 - i)
+			var x string
+			if m := byteOfShift.FindStringSubmatch(t); m != nil {
+				if s, _ := strconv.Atoi(m[2]); s != want {
+					return "", false
+				}
+				x = m[1]
+			} else if m := byteOfWhole.FindStringSubmatch(t); m != nil && want == 0 {
+				x = m[1]
+			} else {
+				return "", false
+			}
+			if base == "" {
+				base = x
+			} else if base != x {
+				return "", false
+			}
+		}
+		if !strings.Contains(base, "p0.values[") {
+			return "", false
+		}
+		element = base
+	}
+	return fmt.Sprintf("for every width k the k bytes appended per element are byte(x>>8(k-1)) ... byte(x) of x = %s: most significant first", element), true
+}
+
 func bigEndianStdlib(p *Prog, fn *ssa.Function) (string, bool) {
 	for _, k := range []int64{1, 2, 4, 8} {
 		in := NewInterp(p)
